@@ -4,11 +4,13 @@
 package c07
 
 import (
+	"errors"
 	"io/fs"
 	"time"
 
 	"github.com/avfs/avfs"
 	"github.com/avfs/avfs/idm/memidm"
+	"github.com/avfs/avfs/vfs/failfs"
 
 	"verif/harness/hx"
 	"verif/harness/sym"
@@ -19,6 +21,7 @@ func init() {
 	sym.Register("c07.HFile", HFile)
 	sym.Register("c07.HIdm", HIdm)
 	sym.Register("c07.HDirHist", HDirHist)
+	sym.Register("c07.HFaulty", HFaulty)
 }
 
 // operand universe: aliasing, boundary and malformed paths
@@ -235,10 +238,10 @@ var fileMethods = []string{"Chdir", "Chmod", "Chown", "Close", "Fd", "Name", "Re
 // NumFileMethods is len(fileMethods).
 const NumFileMethods = 17
 
-var handleStates = []string{"rdwr", "rdonly", "wronly-append", "dir", "closed", "failed-open", "removed-after-open"}
+var handleStates = []string{"rdwr", "rdonly", "wronly-append", "dir", "closed", "failed-open", "removed-after-open", "dir-by-relative-name"}
 
 // NumHandleStates is len(handleStates).
-const NumHandleStates = 7
+const NumHandleStates = 8
 
 func openState(v avfs.VFS, st int) (f avfs.File, err error) {
 	switch st {
@@ -260,6 +263,9 @@ func openState(v avfs.VFS, st int) (f avfs.File, err error) {
 	case 6:
 		f, err = v.OpenFile("/w/b", 2, 0)
 		_ = v.Remove("/w/b")
+	case 7:
+		_ = v.Chdir("/w")
+		f, err = v.OpenFile("a", 0, 0)
 	}
 	return f, err
 }
@@ -302,10 +308,50 @@ func HFile(kind, st, m, pre int) {
 		_, _ = v.Stat("/w/b")
 		_, _ = v.ReadFile("/w/b")
 		_, _ = v.ReadDir("/w")
+		// relative paths resolve from whatever the working directory now is
+		_, _ = v.Stat("b")
+		_ = v.MkdirAll("p/q", 0o755)
+		_, _ = v.Getwd()
 		_ = f.Close()
 	})
 	sym.Assert(!res.Panicked, "C07|"+label+"|then-probe|panic|"+res.Class+"|"+res.Site)
 }
+
+// HFaulty: VFS method m through a FailFS whose failure function fails at most
+// one consultation, chosen by the solver, with a 600-byte file among the
+// operands (larger than the 512-byte first read of ReadFile): the call returns.
+func HFaulty(m int) {
+	b := hx.NewBase(hx.KMem)
+	seed(b, hx.KMem)
+	big := make([]byte, 600)
+	for i := range big {
+		big[i] = byte(i)
+	}
+	hx.Must(b.WriteFile("/w/big", big, 0o644))
+	ff := failfs.New(b)
+	fired := 0
+	_ = ff.SetFailFunc(func(_ avfs.VFSBase, fn avfs.FnVFS, _ *failfs.FailParam) error {
+		if fired == 0 && sym.Bool("fail") {
+			fired++
+			return errFault
+		}
+		return nil
+	})
+	name := vfsMethods[m]
+	ops := []string{"/w/big", "/w", "/w/a/a", "/w/c"}
+	p := ops[sym.Choose("p", len(ops))]
+	q := ""
+	if twoPath(name) {
+		q = ops[sym.Choose("q", len(ops))]
+	}
+	label := "failfs-with-fault|" + name
+	sym.Label(label)
+	sym.Reach("faulty")
+	res := sym.Outcome(func() { callVFS(ff, name, p, q) })
+	sym.Assert(!res.Panicked, "C07|"+label+"|panic|"+res.Class+"|"+res.Site)
+}
+
+var errFault = errors.New("injected fault")
 
 // HDirHist: a history of k steps on one directory handle of /w: each step is
 // ReadDir(n) or Readdirnames(n) with a symbolic count, or a namespace call that
